@@ -170,7 +170,14 @@ func runC07(p *Prog, r *Report) {
 				ce = append(ce, e)
 			}
 		}
-		r.Check(len(ce) == 1 && ce.AllGuarded("select#3 == nil"), R, "closed-queue-yields-cause", ce.Pos(p), "a closed survey queue yields surv.err (ErrProtoState after expiry, ErrCanceled when superseded)", "a finished survey does not report its recorded cause")
+		r.Check(len(ce) == 1 && len(ce[0].Guard) > 0 && func() bool {
+			for _, a := range ce[0].Guard {
+				if strings.HasPrefix(a, "select(<-") && strings.HasSuffix(a, ".recvQ) == nil") {
+					return true
+				}
+			}
+			return false
+		}(), R, "closed-queue-yields-cause", ce.Pos(p), "a closed survey queue yields surv.err (ErrProtoState after expiry, ErrCanceled when superseded)", "a finished survey does not report its recorded cause")
 		rq := rm.Ev("select-recv", "recv.surv.recvQ")
 		r.Check(len(rq) == 1, R, "reads-current-survey-queue", rq.Pos(p), "responses are read from the current survey's queue", "Recv does not read from the current survey's queue")
 	}
